@@ -133,6 +133,13 @@ def run_one(case):
             t = bd['t']
             if t == 'probe':
                 kw = {}
+                if idx == 0:
+                    # b0's first output (set in its init_regular, i.e. in the simulation task) is sent as a
+                    # 'boom' event to every probe with the fault site 'handler_init'
+                    evs = [edzed.Event(f"b{j}", 'boom') for j, x in enumerate(case['blocks'])
+                           if x['t'] == 'probe' and x.get('fault') == 'handler_init' and j != 0]
+                    if evs:
+                        kw['on_output'] = evs
                 if bd.get('fault') == 'restore':
                     kw['persistent'] = True
                 if bd.get('fault') == 'init_from_value':
@@ -172,7 +179,9 @@ def run_one(case):
                     if _fault == 'calc0' or (_fault == 'calc' and x == 13):
                         raise Boom('calc')
                     return x
-                blk = edzed.FuncBlock(name, func=f).connect('b0')
+                evs = [edzed.Event(f"b{j}", 'boom') for j, x in enumerate(case['blocks'])
+                       if x['t'] == 'probe' and x.get('fault') == 'handler_sim']
+                blk = edzed.FuncBlock(name, func=f, on_output=evs or None).connect('b0')
             elif t == 'timedate':
                 blk = edzed.TimeDate(name, times="0:0-1:0")
             else:
@@ -265,7 +274,7 @@ def run_one(case):
                             b.event('put', value=5)
                     except Exception:
                         pass
-                if any(bd.get('fault') == 'calc' for bd in case['blocks']) and first_probe is not None:
+                if any(bd.get('fault') in ('calc', 'handler_sim') for bd in case['blocks']) and first_probe is not None:
                     try:
                         first_probe.event('put', value=13)
                     except Exception:
@@ -449,6 +458,10 @@ def gen_case(rng):
         for i, bd in enumerate(blocks):
             if bd['t'] == 'probe':
                 sites += [(i, f) for f in ('start', 'restore', 'init_regular', 'init_from_value', 'handler', 'stop')]
+                if i != 0:
+                    sites += [(i, 'handler_init')]
+                    if any(x['t'] == 'func' for x in blocks):
+                        sites += [(i, 'handler_sim'), (i, 'handler_sim')]
             elif bd['t'] == 'aprobe':
                 sites += [(i, f) for f in ('start', 'init_async', 'stop', 'stop_async')]
             elif bd['t'] == 'mtask':
@@ -458,8 +471,8 @@ def gen_case(rng):
         i, f = rng.choice(sites)
         if not (i == 0 and f in ('init_regular', 'init_from_value', 'start', 'restore')) or rng.random() < 0.3:
             blocks[i]['fault'] = f
-            fault_ms = dict(handler=6, calc=6, main=7).get(f)
-            if f in ('start', 'init_regular', 'init_from_value', 'calc0'):
+            fault_ms = dict(handler=6, calc=6, main=7, handler_sim=6).get(f)
+            if f in ('start', 'init_regular', 'init_from_value', 'calc0', 'handler_init'):
                 fault_ms = 0 if f == 'start' else 4
     cause = rng.choice([None] + CAUSES + CAUSES)
     instant = rng.choice(['before_start', 'async_init', 'async_init', 'running', 'running', 'running'])
@@ -496,6 +509,12 @@ DIRECTED = [
        'support_return', 'running', second='sigterm', fault_ms=7),
     _d([dict(t='probe'), dict(_AP, stop_ms=3), dict(t='fsm'), dict(t='func', fault='calc')], 'support_raise',
        'running', second='ctrl_shutdown', fault_ms=6),
+    _d([dict(t='probe'), dict(t='probe', fault='handler_sim'), dict(t='func'), dict(_AP, stop_ms=3), dict(t='ofunc'),
+        dict(t='fsm'), dict(t='vpoll')], None, 'running', fault_ms=6),
+    _d([dict(t='probe'), dict(t='probe', fault='handler_init'), dict(_AP, stop_ms=3), dict(t='ofunc'),
+        dict(t='mtask')], None, 'running', fault_ms=4),
+    _d([dict(t='probe'), dict(t='probe', fault='handler_sim'), dict(t='func'), dict(t='oasync', mode='wait'),
+        dict(t='repeat')], 'support_return', 'running', wait_init=True, fault_ms=6),
     _d([dict(t='probe'), dict(t='probe', fault='stop'), dict(_AP, stop_ms=3, fault='stop_async'),
         dict(_AP, fault='stop'), dict(t='ofunc')], 'shutdown', 'running'),
 ]
